@@ -178,6 +178,10 @@ func finish(ps *PropertySpec, tier string, seed int, results []*HarnessResult, l
 		"distinct_nontrivial":           paths,
 		"rule":                          "each evaluation is one completed symbolic path (distinct decision sequence) of a harness over the SSA of /repo's current tree; every path condition is distinct by construction",
 	}
+	if level == "translation_validation" {
+		cov["programs"] = obligations
+		cov["disagreements_checked"] = qs.Sat + qs.Unsat
+	}
 	ev := map[string]interface{}{
 		"property_id": ps.ID, "tier": tier, "seed": seed, "level": level, "coverage": cov,
 		"assumptions": ps.Assume, "wall_s": round2(time.Since(t0).Seconds()), "violations": len(newViol),
